@@ -169,10 +169,12 @@ def check(case, ctx):
                                if not any(a == spec.PROV_NS + "label" for a, _ in m["attrs"]) else [(LATE["added"], "after <first> rendering")])
         ref_doc = twin.doc
         ctx.count("rendered_then_edited_then_rendered")
+    refused = False
     try:
         u = ref_doc.unified()
     except ProvException:
         u = ref_doc
+        refused = True
         ctx.count("unification_refused_original_drawn")
     type_to_kind = {spec.type_uri(k): k for k in spec.KINDS}
     formal_uris = {spec.PROV_NS + a for k in spec.KINDS for a, t in spec.formal_args(k) if t == "ref"}
@@ -185,8 +187,11 @@ def check(case, ctx):
     must_rows = Counter()
     hostile = {"identifier": False, "label": False, "value": False}
     n_rel = 0
+    mentioned_in = {}
     for cu, c in conts:
         els = Counter()
+        seen_groups = set()
+        mentioned_in[cu] = set()
         for r in c.get_records():
             kind = type_to_kind[r.get_type().uri]
             attrs = [(a, v) for a, v in r.attributes]
@@ -201,7 +206,11 @@ def check(case, ctx):
                 elif MARKUP & set(_printed(v)):
                     hostile["value"] = True
             if r.is_element():
-                els[r.identifier.uri] += 1
+                # one node per UNIFIED element record: records of one kind sharing an identifier count once (the
+                # grouping is done here, not taken from the library's unified())
+                if refused or (r.identifier.uri, kind) not in seen_groups:
+                    els[r.identifier.uri] += 1
+                seen_groups.add((r.identifier.uri, kind))
                 if opts["show_element_attributes"]:
                     for row in rows:
                         must_rows[row] += 1
@@ -213,6 +222,7 @@ def check(case, ctx):
             v1 = vals.get(spec.PROV_NS + fargs[0][0])
             v2 = vals.get(spec.PROV_NS + fargs[1][0]) if fargs[1][1] == "ref" else None
             mentioned.update(v.uri for a, v in attrs if a.uri in formal_uris and hasattr(v, "uri"))
+            mentioned_in[cu].update(v.uri for a, v in attrs if a.uri in formal_uris and hasattr(v, "uri"))
             if v1 is None or v2 is None:
                 continue
             n_rel += 1
@@ -286,8 +296,10 @@ def check(case, ctx):
             elif have.get(uri, 0) < n:
                 items.append(_it("element_node_missing_in_its_cluster", uri=uri, bundle=cu, want=n, got=have.get(uri, 0)))
         for uri, n in total_nodes.items():
-            if uri in total_expected and n > total_expected[uri] and uri not in referenced and uri not in mentioned and cu is None:
-                items.append(_it("element_node_duplicated", uri=uri))
+            # upper bound: per container its element records of that name, or one node when the name is only mentioned there
+            allowed = sum(e.get(uri, 0) or (1 if uri in mentioned_in.get(c2, ()) else 0) for c2, e in exp_elements.items())
+            if uri in total_expected and n > allowed and cu is None:
+                items.append(_it("element_node_duplicated", uri=uri, nodes=n, allowed=allowed))
     all_urls = Counter()
     for c_ in got.values():
         all_urls.update(c_)
